@@ -74,7 +74,7 @@ type Query {
   c: C
   pet: Pet
   pets: [Pet]
-  hello(n: Int, t: Tag, p: P, e: Color = RED, req: Int! = 3): String
+  hello(n: Int, t: Tag, p: P, e: Color = RED, req: Int! = 3, x: String): String
   num: Int!
   color: Color
   tag: Tag
